@@ -5,6 +5,7 @@ import (
 	"go/ast"
 	"go/token"
 	"go/types"
+	"os"
 	"sort"
 	"strings"
 )
@@ -425,10 +426,26 @@ func slotAgreement(c *Ctx, prop string, which map[string]bool) {
 					}
 					return printed[f][0]
 				}
+				if os.Getenv("IVQ_DEBUG_ORDER") != "" {
+					for _, e := range pe {
+						fmt.Printf("DEBUG %s %s field=%s class=%s word=%s pos=%s\n", tname, e.kind, e.field, e.class, e.word, p.Pos(e.pos))
+					}
+				}
 				for i := 0; i+1 < len(seq); i++ {
 					a, b := seq[i], seq[i+1]
 					key := fmt.Sprintf("%s: %s before %s", tname, a, b)
 					if p.branchSiblings(pr.fn, pr.T, a, b) {
+						continue
+					}
+					// two stores with nothing scanned between them are one clause's
+					// node being filled in: their order is not clause order
+					scanned := false
+					for j := firstStore[a] + 1; j < firstStore[b] && j < len(pe); j++ {
+						if pe[j].kind == "KW" || strings.HasPrefix(pe[j].class, "CALL") {
+							scanned = true
+						}
+					}
+					if !scanned && firstStore[a] < firstStore[b] && (pe[firstStore[b]].class == "CONST" || pe[firstStore[b]].class == "NODE" || pe[firstStore[b]].class == "LIT" || pe[firstStore[b]].class == "OP" || pe[firstStore[b]].class == "?") && (pe[firstStore[a]].class == "CONST" || pe[firstStore[a]].class == "OP") {
 						continue
 					}
 					if pos(a) < pos(b) {
@@ -475,7 +492,51 @@ func (p *Program) branchSiblings(fn *types.Func, T *types.Named, a, b string) bo
 	}
 	path := map[string][]arm{}
 	lit := map[string]bool{}
+	// locals whose defining assignment contains a call (a parse helper's result)
+	localFromCall := map[types.Object]bool{}
+	ast.Inspect(fd.Body, func(n ast.Node) bool {
+		as, ok := n.(*ast.AssignStmt)
+		if !ok {
+			return true
+		}
+		hasCall := false
+		for _, r := range as.Rhs {
+			ast.Inspect(r, func(m ast.Node) bool {
+				if _, ok := m.(*ast.CallExpr); ok {
+					hasCall = true
+				}
+				return true
+			})
+		}
+		if hasCall {
+			for _, l := range as.Lhs {
+				if id, ok := l.(*ast.Ident); ok {
+					if o := p.Info.ObjectOf(id); o != nil {
+						localFromCall[o] = true
+					}
+				}
+			}
+		}
+		return true
+	})
 	var stack []arm
+	kwDepth := 0 // enclosing arms selected by a token test: the clause's keyword was just consumed
+	tt := p.tokenTable()
+	mentionsToken := func(e ast.Node) bool {
+		found := false
+		if e == nil || tt == nil {
+			return false
+		}
+		ast.Inspect(e, func(m ast.Node) bool {
+			if ex, ok := m.(ast.Expr); ok {
+				if _, ok := p.tokenConst(ex, tt); ok {
+					found = true
+				}
+			}
+			return true
+		})
+		return found
+	}
 	var visit func(n ast.Node)
 	visit = func(n ast.Node) {
 		if n == nil {
@@ -483,11 +544,30 @@ func (p *Program) branchSiblings(fn *types.Func, T *types.Named, a, b string) bo
 		}
 		switch x := n.(type) {
 		case *ast.AssignStmt:
+			// a value that was produced earlier (a local, a constant, a literal):
+			// the position of the assignment says nothing about clause order
+			produced := kwDepth > 0
+			for _, r := range x.Rhs {
+				ast.Inspect(r, func(m ast.Node) bool {
+					switch y := m.(type) {
+					case *ast.CallExpr:
+						produced = true
+					case *ast.Ident:
+						if localFromCall[p.Info.ObjectOf(y)] {
+							produced = true
+						}
+					}
+					return true
+				})
+			}
 			for _, l := range x.Lhs {
 				if sel, ok := ast.Unparen(l).(*ast.SelectorExpr); ok {
 					if t := p.Info.TypeOf(sel.X); t != nil && isT(t) {
 						if _, seen := path[sel.Sel.Name]; !seen {
 							path[sel.Sel.Name] = append([]arm{}, stack...)
+							if !produced {
+								lit[sel.Sel.Name] = true
+							}
 						}
 					}
 				}
@@ -514,7 +594,14 @@ func (p *Program) branchSiblings(fn *types.Func, T *types.Named, a, b string) bo
 			for cur := x; cur != nil; {
 				visit(cur.Init)
 				stack = append(stack, arm{root, idx})
+				kw := mentionsToken(cur.Cond)
+				if kw {
+					kwDepth++
+				}
 				visit(cur.Body)
+				if kw {
+					kwDepth--
+				}
 				stack = stack[:len(stack)-1]
 				idx++
 				switch e := cur.Else.(type) {
@@ -533,8 +620,20 @@ func (p *Program) branchSiblings(fn *types.Func, T *types.Named, a, b string) bo
 		case *ast.SwitchStmt:
 			for i, cl := range x.Body.List {
 				stack = append(stack, arm{x, i})
+				kw := false
+				for _, e := range cl.(*ast.CaseClause).List {
+					if mentionsToken(e) {
+						kw = true
+					}
+				}
+				if kw {
+					kwDepth++
+				}
 				for _, s := range cl.(*ast.CaseClause).Body {
 					visit(s)
+				}
+				if kw {
+					kwDepth--
 				}
 				stack = stack[:len(stack)-1]
 			}
